@@ -510,6 +510,21 @@ class World:
                 stack.enter_context(patch.object(mqtt_mod, "async_subscribe", self.broker.async_subscribe))
                 for hook in self._hash_seams():
                     stack.enter_context(hook)
+                slow_ms = float(cfg.get("svc_params_delay_ms") or 0.0)
+                if slow_ms > 0:
+                    # State.get_service_params() awaits Home Assistant's service-description loader, which suspends
+                    # (executor job) whenever some integration's descriptions are not cached yet. With the bare core
+                    # of the simulation everything is cached, so the suspension is injected here: legal, rare.
+                    from custom_components.pyscript.state import State
+
+                    orig_gsp = State.get_service_params
+
+                    async def slow_get_service_params():
+                        self.fault("slow_service_description_load")
+                        await asyncio.sleep(slow_ms / 1000.0)
+                        return await orig_gsp()
+
+                    stack.enter_context(patch.object(State, "get_service_params", staticmethod(slow_get_service_params)))
                 for hook in self.extra_patches():
                     stack.enter_context(hook)
 
